@@ -74,6 +74,19 @@ func init() {
 		prog("progH264CachePack", "media/cache/h264cache.go", "H264Cache", "CachePack")
 		prog("progH264PushTo", "media/cache/h264cache.go", "H264Cache", "PushTo")
 		prog("progHevcCachePack", "media/cache/hevccache.go", "HevcCache", "CachePack")
+		prog("progH264CacheReset", "media/cache/h264cache.go", "H264Cache", "Reset")
+		prog("progHevcCacheReset", "media/cache/hevccache.go", "HevcCache", "Reset")
+		conds := func(lean, file, recv, fn string) {
+			fd := FuncDecl(Parse(file), recv, fn)
+			if fd == nil {
+				e.Unknown(recv + "." + fn)
+			}
+			e.P("/-- %s: %s.%s — its `if` conditions, in source order -/", file, recv, fn)
+			e.P("def %s : List String := %s", lean, LeanStrList(Conds(fd)))
+		}
+		conds("condsH264CachePack", "media/cache/h264cache.go", "H264Cache", "CachePack")
+		conds("condsHevcCachePack", "media/cache/hevccache.go", "HevcCache", "CachePack")
+		conds("condsConsSend", "media/consumption.go", "consumption", "send")
 		prog("progHevcPushTo", "media/cache/hevccache.go", "HevcCache", "PushTo")
 		prog("progFlvCachePack", "media/cache/flvcache.go", "FlvCache", "CachePack")
 		prog("progFlvPushTo", "media/cache/flvcache.go", "FlvCache", "PushTo")
